@@ -193,7 +193,8 @@ def replay(hist, graph, root, rnd):
                 if m2r.setdefault(model, real) != real:
                     issues.append(("hash:same-content-different-hash", {"step": n, "pkg": q, "which": which, "action": st["a"], "arg": st["arg"], "model": model}))
                 if r2m.setdefault(real, model) != model:
-                    issues.append(("hash:different-content-same-hash", {"step": n, "pkg": q, "which": which, "action": st["a"], "arg": st["arg"], "model": model, "other": r2m[real]}))
+                    # (the identity names the kind of the package's latest interface edit: a hash that does not move is a statement about that kind)
+                    issues.append(("hash:different-content-same-hash" + (":after-edit=" + proj.ie[q][-1] if proj.ie[q] else ""), {"step": n, "pkg": q, "which": which, "action": st["a"], "arg": st["arg"], "model": model, "other": r2m[real]}))
         if issues:
             break
     return issues, stats
